@@ -720,6 +720,8 @@ def _discharge_assert(F, b, tb, i, t, msg, ops):
             tys[0] = tys[1]     # both operands of a checked +/- have one type
         a, c = ops
         if tys[0] == "usize":
+            if msg.startswith("Overflow(Add)") and _find_position(a) is not None and isinstance(c, tuple) and c[0] == "int" and 0 <= c[1] <= 4096:
+                return "position returned by str::find (≤ len ≤ isize::MAX) plus a small constant"
             if msg.startswith("Overflow(Add)") and _is_index_like(b, tb, t["ops"][0], a) and _is_index_like(b, tb, t["ops"][1], c):
                 return "usize operands bounded by the length of a live allocation (≤ isize::MAX each)"
             if msg.startswith("Overflow(Add)") and c == ("int", 1) and _field_event_counter(F, b, a):
@@ -920,7 +922,47 @@ def index_sites(F, bodies):
             yield b, i, t, cont, ity, idx, _discharge_index(F, b, tb, i, t, cont, ity, idx)
 
 
+def _find_position(t):
+    """t is the position returned by `hay.find(NEEDLE)` with a constant str needle -> (hay term, needle) else None"""
+    if isinstance(t, tuple) and t and t[0] == "some" and isinstance(t[1], tuple) and t[1] and t[1][0] == "call" \
+            and parse_callee(t[1][1])[2] in ("find", "rfind") and len(t[1][2]) == 2:
+        hay, needle = t[1][2]
+        if isinstance(needle, tuple) and needle and needle[0] == "str" and isinstance(needle[1], str):
+            return hay, needle[1]
+    return None
+
+
+def _after_needle(idx_term, cont_term):
+    """`&hay[pos + K ..]` / `&hay[.. pos]` / `&hay[pos ..]` where pos = hay.find(NEEDLE) on the SAME hay: in bounds and on a char
+    boundary iff K ≤ len(NEEDLE) bytes and NEEDLE[..K] ends on a char boundary (any K for an ASCII needle)"""
+    if not (isinstance(idx_term, tuple) and idx_term and idx_term[0] == "agg" and idx_term[1].startswith("core::ops::range::Range")):
+        return None
+    for name, v in idx_term[3]:
+        k = 0
+        base = v
+        if isinstance(v, tuple) and v and v[0] == "bin" and v[1] == "Add" and isinstance(v[3], tuple) and v[3][0] == "int":
+            base, k = v[2], v[3][1]
+        fp = _find_position(base)
+        if fp is None:
+            return None
+        hay, needle = fp
+        if _strip_refs(hay) != _strip_refs(cont_term):
+            return None
+        nb = needle.encode("utf-8")
+        if k > len(nb):
+            return None
+        try:
+            nb[:k].decode("utf-8")
+        except UnicodeDecodeError:
+            return None
+    return "bounds are the position of a constant needle found in the same str, advanced by at most the needle's own length"
+
+
 def _discharge_index(F, b, tb, i, t, cont, ity, idx):
+    if cont.endswith("str") and "Range" in ity:
+        why = _after_needle(idx, tb.operand(t["args"][0]))
+        if why:
+            return why
     if ity == "usize":
         k = op_const(t["args"][1])
         p = op_place(t["args"][1])
